@@ -25,6 +25,9 @@ structure St where
   cells : Nat → Rat := fun _ => 0
   rops : List ROp := []
   bad : World := winit
+  /-- round 6: callback id ↦ (d, k): after scheduling its first `k` children the callback calls
+  `evolve_until(own time + d)` itself (`nestBody`) -/
+  nest : List (Nat × Rat × Nat) := []
 
 /-- the callbacks as the real ones are: they see the clock -/
 def kidsOfC (tbl : List (Nat × List (Rat × Nat × Bool))) (clk : Rat) (e : Entry) : List (Rat × Nat) :=
@@ -138,7 +141,30 @@ def step (st : St) : List String → St × String
     -- whose run must be the `loopX` run (`same=`)
     match parseRat? T, parseNat? fuel, parseNat? c with
     | some T, some fuel, some c =>
-      if clockRel st.tbl then (st, "bad-op") else
+      if clockRel st.tbl then
+        -- round 6: clock-relative children.  `loopXC` (callbacks see the clock); the history advances by
+        -- `stepOpC` on the fuel and callbacks of `raise_eq_fuel_out_clock`, whose `loopC` run must be the
+        -- `loopXC` run (`same=`)
+        let kidsC := kidsOfC st.tbl
+        let rx := evolveUntilXC kidsC (fun e => e.ctr == c) fuel st.h.s T
+        match rx.raisedAt with
+        | none => doEvolve st T fuel none
+        | some e =>
+          let kC := kidsExceptC kidsC e
+          let j := (fired rx.run.trace).length
+          let run := evolveUntilC kC j st.h.s T
+          let hcC := stepOpC kC j ⟨st.h, st.ftbl⟩ (.evolve T)
+          let h' := hcC.h
+          let t0 := st.h.s.t
+          let out := s!"raised t={showRat h'.s.t} ctr={h'.s.ctr} trace=" ++
+            ";".intercalate (run.trace.map showEvent) ++ " queue=" ++
+            ";".intercalate (h'.s.queue.map showEntry) ++ " iv=" ++
+            ";".intercalate ((intervals t0 run.trace).map showIv) ++
+            s!" sum={showRat (sumDt run.trace)} lfc={showRat (lastFireClock t0 run.trace)}" ++
+            s!" same={decide (run = rx.run)}"
+          ({ st with h := h', ftbl := hcC.tbl, ops := st.ops ++ [.evolve T], fuel := some j, fuelSame := false,
+                     rops := st.rops ++ [.evolve (.val T)] }, out)
+      else
       let kids := kidsOf st.tbl
       let rx := evolveUntilX kids (fun e => e.ctr == c) fuel st.h.s T
       match rx.raisedAt with
@@ -158,6 +184,29 @@ def step (st : St) : List String → St × String
         ({ st with h := h', ops := st.ops ++ [.evolve T], fuel := some j, fuelSame := false,
                    rops := st.rops ++ [.evolve (.val T)] }, out)
     | _, _, _ => (st, "bad-op")
+  | ["nest", id, d, k] =>
+    match parseNat? id, parseRat? d, parseNat? k with
+    | some id, some d, some k => ({ st with nest := (id, d, k) :: st.nest.filter (·.1 ≠ id) }, "ok")
+    | _, _, _ => (st, "bad-op")
+  | ["evolver", T, fuel, "new"] =>
+    -- round 6: callbacks that re-enter `evolve_until` (`loopR`/`evolveUntilR`, the object of the `reentrant_*`
+    -- theorems).  `same=`: with the re-entering stripped the machine is `evolveUntil` (`reentrant_plain_is_loop`).
+    match parseRat? T, parseNat? fuel with
+    | some T, some fuel =>
+      if clockRel st.tbl then (st, "bad-op") else
+      let kids := kidsOf st.tbl
+      let nestOf : Entry → Option (Rat × Nat) := fun e => (st.nest.find? (·.1 = e.id)).map (·.2)
+      let run := evolveUntilR (nestBody kids nestOf) fuel st.h.s T
+      let t0 := st.h.s.t
+      let same := decide (evolveUntilR (plainBody kids) fuel st.h.s T = evolveUntil kids fuel st.h.s T)
+      let out := s!"{showStatus run.status} t={showRat run.s.t} ctr={run.s.ctr} trace=" ++
+        ";".intercalate (run.trace.map showEvent) ++ " queue=" ++
+        ";".intercalate (run.s.queue.map showEntry) ++ " iv=" ++
+        ";".intercalate ((intervals t0 run.trace).map showIv) ++
+        s!" sum={showRat (sumDt run.trace)} lfc={showRat (lastFireClock t0 run.trace)}" ++
+        s!" same={same}"
+      ({ st with h := { st.h with s := run.s, trace := st.h.trace ++ run.trace }, fuelSame := false }, out)
+    | _, _ => (st, "bad-op")
   | ["byref"] =>
     -- the caller program once more through `runG .copy` (stored_by_value: = the history), and whether the
     -- by-reference scheduler `Bad.byReference` would have run a different history on it
